@@ -197,6 +197,8 @@ def main(tier, replay=None):
         for k in range(n):
             rng = random.Random("c20/%d/%d" % (seed, k))
             base, _ = gen.rand_case(seed, 160000 + k, max_bits=rng.choice([60, 300, 1000]), p_enum_nonzero_first=0.3)
+            if k % 3 == 1:
+                base = gen.wrap_diamond(base, rng)      # two sibling imports in one file, one file reached twice
             pr = perturb(base, rng)
             lay = render.Layout(indent=4, semi=(rng.random() < 0.2))
             if rng.random() < 0.1:
@@ -230,6 +232,8 @@ def main(tier, replay=None):
         for k in range(nerrp):
             rng = random.Random("c20e/%d/%d" % (seed, k))
             base, _ = gen.rand_case(seed, 165000 + k, max_bits=rng.choice([60, 300]), consts=True)
+            if k % 2 == 1:
+                base = gen.wrap_diamond(base, rng)
             base = perturb(base, rng)
             got = inject.inject(base, rules[(k + seed) % len(rules)], rng)
             if got is None:
